@@ -27,6 +27,9 @@ struct Contract {
     /// attribute text placed before the function
     #[serde(default)]
     attrs: String,
+    /// proof text inserted before the closing brace of the body (only for bodies without tail expression)
+    #[serde(default)]
+    exit: String,
     /// "ordinal" -> proof text inserted before the ordinal-th statement-level anchor (unused by default)
     #[serde(default)]
     external: bool,
@@ -104,6 +107,31 @@ struct Plan {
     /// ghost declarations only (spec fns of the contract layer)
     #[serde(default)]
     item_inject: HashMap<String, String>,
+    /// expressions hoisted by (whitespace-free) source text into external_body helpers (R7/R12 variant)
+    #[serde(default)]
+    expr_hoists: Vec<ExprHoist>,
+    /// trait impls whose methods are additionally emitted as an inherent copy `vx_<name>` carrying the
+    /// contract (R16): Verus forbids `requires` on trait-impl methods. The original stays (external_body).
+    #[serde(default)]
+    inherent_copy: Vec<String>,
+    /// traits that get an explicit `: Sized` supertrait (R15; implied by their method signatures)
+    #[serde(default)]
+    trait_sized: Vec<String>,
+}
+
+#[derive(Deserialize, Clone)]
+struct ExprHoist {
+    in_fn: String,
+    /// whitespace-free source text of the expression
+    text: String,
+    name: String,
+    #[serde(default)]
+    generics: String,
+    sig: String,
+    #[serde(default)]
+    spec: String,
+    /// call arguments (the free variables of the expression, same names as the helper's parameters)
+    args: String,
 }
 
 #[derive(Deserialize, Clone)]
@@ -119,6 +147,9 @@ struct ChainHoist {
     spec: String,
     #[serde(default)]
     by_ref: bool,
+    /// extra arguments (free variables of the suffix) passed after the receiver
+    #[serde(default)]
+    args: String,
 }
 
 #[derive(Serialize, Default)]
@@ -166,10 +197,18 @@ struct Ctx<'p> {
     used_contracts: HashSet<String>,
     used_hoists: HashSet<usize>,
     used_chain_hoists: HashSet<usize>,
+    used_expr_hoists: HashSet<String>,
     impl_prefix: Option<String>,
+    /// pass A of R16: every fn of the item is external and gets no contract
+    force_plain: bool,
+    /// pass B of R16: emit the inherent copy
+    copy_mode: bool,
+    copy_names: Vec<String>,
+    copy_assoc: HashMap<String, String>,
 }
 
 struct FnState {
+    rename_self: bool,
     decl: bool,
     key: String,
     loop_ord: usize,
@@ -237,13 +276,21 @@ impl<'p> Ctx<'p> {
         block: Option<&syn::Block>,
         whole: (usize, usize),
     ) {
-        let contract = self.plan.contracts.get(&key).cloned();
-        let external = self.is_external(&key);
+        let contract = if self.force_plain { None } else { self.plan.contracts.get(&key).cloned() };
+        let external = self.force_plain || self.is_external(&key);
+        if self.copy_mode {
+            let (is, ie) = br(sig.ident.span());
+            self.replace(is, ie, vec![Part::Lit(format!("vx_{}", sig.ident))]);
+        }
         if contract.is_some() {
             self.used_contracts.insert(key.clone());
         }
         let mut attrs = String::new();
-        attrs.push_str(&format!("// @fn {}\n", key));
+        if self.force_plain {
+            attrs.push_str(&format!("// (original of {}; verified through its inherent copy below, rule R16)\n", key));
+        } else {
+            attrs.push_str(&format!("// @fn {}\n", key));
+        }
         if external && block.is_some() {
             attrs.push_str("#[verifier::external_body]\n");
         }
@@ -282,6 +329,18 @@ impl<'p> Ctx<'p> {
                 if !c.entry.trim().is_empty() && !external {
                     self.insert(bs + 1, format!("\n{}\n", c.entry.trim_end()));
                 }
+                if !c.exit.trim().is_empty() && !external {
+                    let tail = match b.stmts.last() {
+                        Some(syn::Stmt::Expr(_, None)) => !matches!(sig.output, syn::ReturnType::Default),
+                        _ => false,
+                    };
+                    if tail {
+                        self.out.errors.push(format!("unsupported construct: exit hint on `{}` whose body has a tail expression", key));
+                    } else {
+                        let (_, be) = br(b.span());
+                        self.insert(be - 1, format!("\n{}\n", c.exit.trim_end()));
+                    }
+                }
             }
             if mut_self {
                 self.insert(bs + 1, " let mut self_ = self; ".into());
@@ -299,6 +358,7 @@ impl<'p> Ctx<'p> {
             }
         }
         self.fn_stack.push(FnState {
+            rename_self: mut_self,
             decl: block.is_none(),
             key,
             loop_ord: 0,
@@ -322,6 +382,9 @@ impl<'p> Ctx<'p> {
                     ));
                 }
             }
+        }
+        if self.force_plain {
+            return;
         }
         self.out.fns.push(FnInfo {
             key: f.key,
@@ -492,6 +555,30 @@ impl<'ast, 'p> Visit<'ast> for Ctx<'p> {
             None => ty,
         };
         let old = self.impl_prefix.replace(prefix);
+        if self.copy_mode {
+            if let Some((_, path, for_tok)) = &i.trait_ {
+                let (ps, _) = br(path.span());
+                let (_, fe) = br(for_tok.span());
+                self.replace(ps, fe, vec![Part::Lit(String::new())]);
+            }
+            self.copy_names.clear();
+            self.copy_assoc.clear();
+            for it in &i.items {
+                match it {
+                    syn::ImplItem::Fn(f) => self.copy_names.push(f.sig.ident.to_string()),
+                    syn::ImplItem::Type(t) => {
+                        let (ts, te) = br(t.ty.span());
+                        self.copy_assoc.insert(t.ident.to_string(), self.text(ts, te).to_string());
+                        let (s, e) = br(t.span());
+                        self.replace(s, e, vec![Part::Lit(String::new())]);
+                    }
+                    other => {
+                        let (s, e) = br(other.span());
+                        self.replace(s, e, vec![Part::Lit(String::new())]);
+                    }
+                }
+            }
+        }
         visit::visit_item_impl(self, i);
         self.impl_prefix = old;
     }
@@ -744,6 +831,15 @@ impl<'ast, 'p> Visit<'ast> for Ctx<'p> {
     fn visit_expr_method_call(&mut self, m: &'ast syn::ExprMethodCall) {
         let (s, e) = br(m.span());
         let verified = self.in_verified_fn();
+        if self.copy_mode {
+            if let syn::Expr::Path(rp) = &*m.receiver {
+                if rp.path.is_ident("self") && self.copy_names.iter().any(|n| m.method == n.as_str()) {
+                    let (ms, me) = br(m.method.span());
+                    self.replace(ms, me, vec![Part::Lit(format!("vx_{}", m.method))]);
+                    self.log(ms, "R16", "recursive call goes to the inherent copy");
+                }
+            }
+        }
         // R3
         if verified {
             let name = m.method.to_string();
@@ -814,7 +910,7 @@ impl<'ast, 'p> Visit<'ast> for Ctx<'p> {
                         vec![
                             Part::Lit(format!("{}({}", h.name, if h.by_ref { "&" } else { "" })),
                             Part::Src(s, ce),
-                            Part::Lit(")".into()),
+                            Part::Lit(if h.args.is_empty() { ")".to_string() } else { format!(", {})", h.args) }),
                         ],
                     );
                     self.log(s, "R12", &format!("iterator chain hoisted into {}", h.name));
@@ -893,6 +989,46 @@ impl<'ast, 'p> Visit<'ast> for Ctx<'p> {
             }
         }
         visit::visit_expr_method_call(self, m);
+    }
+
+    fn visit_type_path(&mut self, t: &'ast syn::TypePath) {
+        if self.copy_mode && t.qself.is_none() && t.path.segments.len() == 2 && t.path.segments[0].ident == "Self" {
+            let name = t.path.segments[1].ident.to_string();
+            if let Some(rep) = self.copy_assoc.get(&name).cloned() {
+                let (s, e) = br(t.span());
+                self.replace(s, e, vec![Part::Lit(rep)]);
+                return;
+            }
+        }
+        visit::visit_type_path(self, t);
+    }
+
+    fn visit_expr_path(&mut self, p: &'ast syn::ExprPath) {
+        if p.path.is_ident("self") && self.fn_stack.last().map(|f| f.rename_self).unwrap_or(false) {
+            let (s, e) = br(p.span());
+            self.replace(s, e, vec![Part::Lit("self_".into())]);
+        }
+        visit::visit_expr_path(self, p);
+    }
+
+    fn visit_expr(&mut self, ex: &'ast syn::Expr) {
+        if self.in_verified_fn() && !self.plan.expr_hoists.is_empty() {
+            let (s, e) = br(ex.span());
+            let fnk = self.cur_fn();
+            let txt = squash(self.text(s, e));
+            let hit = self.plan.expr_hoists.iter().find(|h| h.in_fn == fnk && squash(&h.text) == txt).cloned();
+            if let Some(h) = hit {
+                self.helpers.push(format!(
+                    "// hoisted from {} (R12); body is the verbatim expression\n#[verifier::external_body]\nfn {}{}{}\n{}\n{{ {} }}\n",
+                    fnk, h.name, h.generics, h.sig, h.spec, self.text(s, e)
+                ));
+                self.replace(s, e, vec![Part::Lit(format!("{}({})", h.name, h.args))]);
+                self.log(s, "R12", &format!("expression hoisted into {}", h.name));
+                self.used_expr_hoists.insert(h.name.clone());
+                return;
+            }
+        }
+        visit::visit_expr(self, ex);
     }
 
     fn visit_expr_macro(&mut self, m: &'ast syn::ExprMacro) {
@@ -1187,9 +1323,14 @@ fn main() {
         used_contracts: HashSet::new(),
         used_hoists: HashSet::new(),
         used_chain_hoists: HashSet::new(),
+        used_expr_hoists: HashSet::new(),
         impl_prefix: None,
+        force_plain: false,
+        copy_mode: false,
+        copy_names: Vec::new(),
+        copy_assoc: HashMap::new(),
     };
-    let mut kept: Vec<(usize, usize, String)> = Vec::new();
+    let mut rendered = String::new();
     for item in &file.items {
         let Some((key, attrs)) = item_key(item) else { continue };
         if has_cfg_test(&attrs) {
@@ -1204,13 +1345,39 @@ fn main() {
         let (s, e) = br(item.span());
         cx.out.items.push(key.clone());
         if let Some(stub) = plan.item_stubs.get(&key) {
-            cx.edits.push(Edit { start: s, end: e, parts: vec![Part::Lit(stub.clone())] });
             cx.out.log.push(format!("{}:{} R9 item `{}` replaced by generated stub", short(&plan.file), cx.line_of(s), key));
-            kept.push((s, e, key));
+            rendered.push_str(&format!("// @item {} ({}:{})\n{}\n\n", key, short(&plan.file), cx.line_of(s), stub));
             continue;
+        }
+        let two_pass = plan.inherent_copy.iter().any(|k| *k == key);
+        if two_pass {
+            // pass A: the original trait impl, untouched, external
+            cx.force_plain = true;
+            cx.visit_item(item);
+            cx.force_plain = false;
+            let parents = compute_parents(&cx.edits);
+            rendered.push_str(&format!("// @item {} ({}:{})\n", key, short(&plan.file), cx.line_of(s)));
+            rendered.push_str(&render(&src, &cx.edits, &parents, s, e, None));
+            rendered.push_str("\n\n");
+            cx.edits.clear();
+            cx.copy_mode = true;
+            cx.out.log.push(format!("{}:{} R16 `{}`: methods also emitted as inherent copies vx_<name> carrying the contract", short(&plan.file), cx.line_of(s), key));
         }
         if let Some(a) = plan.item_attrs.get(&key) {
             cx.insert(s, format!("{}\n", a));
+        }
+        if plan.trait_sized.iter().any(|k| *k == key) {
+            if let syn::Item::Trait(t) = item {
+                if t.supertraits.is_empty() && t.colon_token.is_none() {
+                    let at = if t.generics.params.is_empty() {
+                        t.ident.span().byte_range().end
+                    } else {
+                        t.generics.span().byte_range().end
+                    };
+                    cx.insert(at, ": Sized".into());
+                    cx.out.log.push(format!("{}:{} R15 `{}` gets explicit `: Sized`", short(&plan.file), cx.line_of(s), key));
+                }
+            }
         }
         if let Some(t) = plan.item_inject.get(&key) {
             let brace = match item {
@@ -1224,7 +1391,12 @@ fn main() {
             }
         }
         cx.visit_item(item);
-        kept.push((s, e, key));
+        cx.copy_mode = false;
+        let parents = compute_parents(&cx.edits);
+        rendered.push_str(&format!("// @item {} ({}:{})\n", key, short(&plan.file), cx.line_of(s)));
+        rendered.push_str(&render(&src, &cx.edits, &parents, s, e, None));
+        rendered.push_str("\n\n");
+        cx.edits.clear();
     }
     // drop individual functions listed in plan.drop (by fn key): replace by nothing
     // (handled by callers through `external` in practice)
@@ -1242,14 +1414,15 @@ fn main() {
             }
         }
     }
-    let parents = compute_parents(&cx.edits);
-    let mut text = String::new();
-    for (s, e, key) in &kept {
-        text.push_str(&format!("// @item {} ({}:{})\n", key, short(&plan.file), cx.line_of(*s)));
-        // strip inner doc comments (//! ...) which Verus rejects: they only occur at file top, outside items
-        text.push_str(&render(&src, &cx.edits, &parents, *s, *e, None));
-        text.push_str("\n\n");
+    for h in plan.expr_hoists.iter() {
+        if !cx.used_expr_hoists.contains(&h.name) {
+            let ext = cx.out.fns.iter().any(|f| f.key == h.in_fn && f.external);
+            if !ext {
+                cx.out.warnings.push(format!("expression hoist {} in {} not applied (text not found)", h.name, h.in_fn));
+            }
+        }
     }
+    let text = rendered;
     let mut helpers = String::new();
     let mut seen = HashSet::new();
     for h in &cx.helpers {
